@@ -162,10 +162,15 @@ def show(t, depth=0):
 def walk(t):
     """yield all sub-terms"""
     if isinstance(t, tuple):
-        yield t
-        for a in t[1:]:
-            if isinstance(a, tuple):
-                yield from walk(a)
+        if t and isinstance(t[0], str):
+            yield t
+            for a in t[1:]:
+                if isinstance(a, tuple):
+                    yield from walk(a)
+        else:
+            for a in t:
+                if isinstance(a, tuple):
+                    yield from walk(a)
 
 
 def contains(t, pred):
@@ -191,6 +196,7 @@ class Engine:
                 self.by_path.setdefault(k, []).extend(v)
             self.by_id.update(c.by_id)
         self._loopinfo = {}
+        self.ids = itertools.count(1)
         self.stats = {"bodies": 0, "paths": 0, "calls": 0, "inlined": 0}
 
     # ---------- CFG helpers ----------
@@ -765,7 +771,7 @@ class Analysis:
         self.eng.stats["calls"] += 1
         # diverging call = panic
         if t["t"] is None:
-            ev.idx = len(path.calls)
+            ev.idx = next(self.eng.ids)
             path.calls.append(ev)
             path.end = "panic"
             msg = None
@@ -782,7 +788,7 @@ class Analysis:
         r = self.policy.model(self, frame, ev, path)
         if r is not None:
             ev.result = r
-            ev.idx = len(path.calls)
+            ev.idx = next(self.eng.ids)
             ev.inlined = "model"
             path.calls.append(ev)
             self._assign_dest(frame, t, r, path)
@@ -831,7 +837,7 @@ class Analysis:
             dead = [b for a, b in res if a is None]
             return ("forks", live, dead)
         # opaque call
-        ev.idx = len(path.calls)
+        ev.idx = next(self.eng.ids)
         path.calls.append(ev)
         r = ("call", key, tuple(args), ev.idx if self.policy.unique_calls else None)
         ev.result = r
